@@ -49,7 +49,11 @@ def mm(local):
 
 
 # deriving operations: doc -> list of (label, result-kind, result, source-kind, source-object)
-def derive(d):
+def derive(d, only=None):
+    """only=k: build the k-th derivation alone (the others are place-holders with result None), so that nothing but
+    that one operation has run in the process when the case is judged (pristine cases, see main)"""
+    if only is not None:
+        return _derive_lazy(d, only)
     res = []
     recs = all_records(d)
     for i, r in enumerate(recs):
@@ -93,6 +97,42 @@ def derive(d):
     return res
 
 
+def _derive_lazy(d, only):
+    res = []
+
+    def add(label, rk, thunk, sk, src):
+        r = None
+        if len(res) == only:
+            try:
+                r = thunk()
+            except ProvException:
+                r = None
+        res.append((label, rk, r, sk, src))
+
+    def _update():
+        d2 = ProvDocument()
+        d2.update(d)
+        return d2
+
+    def _addb():
+        d2 = ProvDocument()
+        d2.add_bundle(d, mm("asbundle"))
+        return d2
+
+    add("ProvDocument(records)", "doc", lambda: ProvDocument(records=d.get_records()), "doc", d)
+    add("update", "doc", _update, "doc", d)
+    if not d.has_bundles():
+        add("add_bundle(document)", "doc", _addb, "doc", d)
+    add("unified", "doc", lambda: d.unified(), "doc", d)
+    for j, b in enumerate(d.bundles):
+        add("bundle[%d].unified" % j, "bundle", (lambda b=b: b.unified()), "doc", d)
+    if d.has_bundles():
+        add("flattened", "doc", lambda: d.flattened(), "doc", d)
+    for fmt in ("json", "xml"):
+        add("reload-" + fmt, "doc", (lambda fmt=fmt: ProvDocument.deserialize(content=d.serialize(format=fmt), format=fmt)), "doc", d)
+    return res
+
+
 def mutations(kind, obj):
     """list of (label, thunk) mutating obj"""
     ms = []
@@ -107,6 +147,8 @@ def mutations(kind, obj):
         # names given as strings: resolved through whatever scope the bundle is linked to
         ms.append(("add-record-string-ex", lambda: b.entity("ex:strnew")))
         ms.append(("add-record-bare-string", lambda: b.entity("barenew")))
+        # a prefix the library pre-binds without listing it until it is used (xsi), given as a string
+        ms.append(("add-record-string-xsi", lambda: b.entity("xsi:strnew")))
         ms.append(("add_namespace", lambda: b.add_namespace("mm", MM)))
         ms.append(("set_default_namespace", lambda: b.set_default_namespace(MM)))
         for i, r in enumerate(b.get_records()):
@@ -118,6 +160,8 @@ def mutations(kind, obj):
         ms.append(("add-value-to-existing-attribute[%d]" % i, (lambda r=r: _second_value(r))))
     ms.append(("add-record", lambda: doc.entity(mm("new"))))
     ms.append(("add-record-default-ns", lambda: doc.entity(QualifiedName(Namespace("", MM), "new"))))
+    ms.append(("add-record-string-xsi", lambda: doc.entity("xsi:strnew")))
+    ms.append(("add-record-string-xsd", lambda: doc.entity("xsd:strnew")))
     ms.append(("add_namespace", lambda: doc.add_namespace("mm", MM)))
     ms.append(("add_namespace-clash", lambda: doc.add_namespace("ex", MM)))
     ms.append(("set_default_namespace", lambda: doc.set_default_namespace(MM)))
@@ -201,10 +245,30 @@ class C12(spec.Spec):
 
     def one(self, hist, di, side, mi, mj, out):
         d = self.fresh(hist).doc
-        label, rk, r, sk, s = derive(d)[di]
+        if mj == "pristine":
+            # (mi is the mutation's label here; only derivation di has run in this process)
+            lst = derive(d, only=di)
+            if di >= len(lst):
+                out.filters["pristine:no-such-derivation-slot"] += 1
+                return
+            label, rk, r, sk, s = lst[di]
+            if r is None:
+                out.filters["pristine:derivation-raised"] += 1
+                return
+            labels = [m[0] for m in (mutations(rk, r) if side == "result" else mutations(sk, s))]
+            if mi not in labels:
+                out.filters["pristine:mutation-not-offered"] += 1
+                return
+            mlab, mi, mj = mi, labels.index(mi), None
+            pristine = True
+            hh_override = ("case", self.ops(hist), label, side, mlab, "pristine")
+        else:
+            label, rk, r, sk, s = derive(d)[di]
+            hh_override = None
+            pristine = False
         # the whole source document is observed even when the derived thing is one record
         src_whole = d
-        hh = ("case", self.ops(hist), label, side, mi, mj)
+        hh = hh_override or ("case", self.ops(hist), label, side, mi, mj)
         out.evaluations += 1
         before_r, before_s, before_d = obs_of(rk, r), obs_of(sk, s), full_obs(src_whole)
         if side == "result":
@@ -242,7 +306,7 @@ class C12(spec.Spec):
             ok, oo = (sk, s) if side == "result" else (rk, r)
             if ok != "rec":
                 d_t = self.fresh(hist).doc
-                _, rk_t, r_t, sk_t, s_t = derive(d_t)[di]
+                _, rk_t, r_t, sk_t, s_t = derive(d_t, only=di if pristine else None)[di]
                 want = resolutions(ok, s_t if side == "result" else r_t)
                 got = resolutions(ok, oo)
                 if got != want:
@@ -292,6 +356,53 @@ class C12(spec.Spec):
         return spec.Spec.render(self, hist)
 
 
+PRISTINE_MUTATIONS = ("add-record-string-xsi", "add-record-string-xsd", "add-record-bare-string", "add-record-string-ex")
+
+
+def _pristine_task(item):
+    tier, hist, di, side, mlabel = item
+    sp = make_spec(tier, {})
+    out = explore.Out()
+    try:
+        sp.one(hist, di, side, mlabel, "pristine", out)
+    except (machine.NotEnabled, machine.NonConformance):
+        out.filters["pristine:history-not-enabled"] += 1
+    return out
+
+
+def _pristine_enum(tier):
+    import itertools
+    sp = make_spec(tier, {})
+    n = len(sp.alphabet)
+    res = []
+    for k in (1, 2):
+        for h in itertools.product(range(n), repeat=k):
+            try:
+                d = sp.fresh(h).doc
+            except (machine.NotEnabled, machine.NonConformance):
+                continue
+            if all_records(d):
+                res.append((h, len(derive(d, only=-1))))
+    return res
+
+
+def pristine_stage(tier):
+    """runs before anything else in this process; every case in its own forked child (maxtasksperchild=1)"""
+    import itertools
+    import multiprocessing
+    import os
+    ctx = multiprocessing.get_context("fork")
+    # (which histories are enabled, and how many derivation slots each has, is found out in a child as well)
+    with ctx.Pool(1, maxtasksperchild=1) as pool:
+        enabled = pool.apply(_pristine_enum, (tier,))
+    items = [(tier, h, di, side, ml) for h, nd in enabled for di in range(nd) for side in ("result", "source") for ml in PRISTINE_MUTATIONS]
+    total = explore.Out()
+    with ctx.Pool(int(os.environ.get("PROVMC_PROCS", "16")), maxtasksperchild=1) as pool:
+        for o in pool.imap_unordered(_pristine_task, items, chunksize=1):
+            total.merge(o)
+    return total, len(items)
+
+
 def make_spec(tier, params):
     return C12(tier, params)
 
@@ -302,8 +413,10 @@ def main(tier, seed):
     t0 = time.time()
     sp = make_spec(tier, {})
     depth = {"quick": 4, "thorough": 4}[tier]
+    pristine_out, n_pristine = pristine_stage(tier)
     hists = []
     out, stats = explore.bfs(__name__, tier, {}, depth, collect=hists)
+    out.merge(pristine_out)
     if tier == "quick":
         # every state to depth 3, and hand-picked deeper ones (renamed prefix + bundle with own declarations)
         al = sp.alphabet
@@ -330,7 +443,9 @@ def main(tier, seed):
         "every deriving operation (copy, add_record into another / the own container, constructor, update, "
         "add_bundle(document), unified of the document and of each bundle, flattened, JSON/XML reload) x every mutation x side%s; a case is "
         "distinct by (state, derivation, side, mutation[s]); non-trivial = the mutation was applied and the other "
-        "side compared" % (len(hists), depth, " x second mutation on the other side (states to depth 3)" if tier == "thorough" else "")))
+        "side compared; plus %d pristine cases: every history of <= 2 letters x derivation x side x each mutation that names a record "
+        "by a string, each in a freshly forked process in which nothing but that history, that one derivation and that one "
+        "mutation has run (state the library keeps per process cannot have been touched by an earlier case)" % (len(hists), depth, " x second mutation on the other side (states to depth 3)" if tier == "thorough" else "", n_pristine)))
     return {"property": "C12", "coverage": cov, "violations": vs, "signatures": nsig,
             "wall_s": round(time.time() - t0, 2)}
 
@@ -344,8 +459,16 @@ def replay(item, tier, seed):
     if h and h[0] == "case":
         hist = tuple(ast.literal_eval(x) for x in h[1])
         d = sp.fresh(hist).doc
-        labels = [x[0] for x in derive(d)]
-        if h[2] in labels:
+        if h[5] == "pristine":
+            labels = [x[0] for x in derive(d, only=-1)]
+            if h[2] in labels:
+                sp.one(hist, labels.index(h[2]), h[3], h[4], "pristine", out)
+            labels = []
+        else:
+            labels = [x[0] for x in derive(d)]
+        if h[5] == "pristine":
+            pass
+        elif h[2] in labels:
             sp.one(hist, labels.index(h[2]), h[3], h[4], h[5], out)
         else:
             # (on this tree the operation derives nothing from this state - it raises: nothing to compare)
